@@ -591,7 +591,8 @@ def checkU8 (f : Fields) (ans : Fields) : Verdict :=
   let v := v.add (getF ans "NEW" == (if n ≤ 126 then toString n else "E")) "S:C19"
   let v := v.add (getF ans "NEWX" == (if n ≤ 125 then toString n else "E")) "S:C19"
   let v := v.add (getF ans "FROM" == (if n ≤ 126 then toString n else "PANIC")) "S:C19"
-  v.add (getF ans "VEC" == (if n ≤ 126 then s!"0,{n},1" else "PANIC")) "S:C19"
+  let v := v.add (getF ans "VEC" == (if n ≤ 126 then s!"0,{n},1" else "PANIC")) "S:C19"
+  v.add (getF ans "VECL" == "1") "S:C19"
 
 def checkHasRtl (f : Fields) (ans : Fields) : Verdict :=
   let lv := natList (getF f "LV")
@@ -790,6 +791,7 @@ def processLine (line : String) : Option String :=
           let n := (getF f "n").toNat?.getD 0
           let ok := getF ans "PARAS" == "1" && getF ans "RUNS" == toString (2 * n) && getF ans "RUNSP" == toString (2 * n)
                     && getF ans "RUNS8" == toString (2 * n) && getF ans "LSUM" == toString n && getF ans "SAME" == "1"
+                    && getF ans "RTL" == "1"
           ((({} : Verdict).add ok "S:C07").add ok "S:C05").add ok "S:C06"
         | "meta12" => checkEq "C12" ans
         | "meta13" => checkEq "C13" ans
@@ -800,6 +802,8 @@ def processLine (line : String) : Option String :=
       let v := if panicked then v.add false "S:PANIC" else v
       -- a panic raised during the operation that never reached the harness (caught inside the crate) is still a panic
       let v := if hasF ans "HIDDENPANIC" then (v.add false "S:C07").add false "S:PANIC" else v
+      -- an analysis started from inside a data-source callback answered differently from the same analysis outside
+      let v := if hasF ans "NESTEDBAD" then ((v.add false "S:C12").add false "S:C01").add false "S:CONV" else v
       let verdict := if v.toks.isEmpty then "ok" else "FAIL " ++ String.intercalate " " v.toks.eraseDups
       some s!"{id} {mode} {op} {verdict} | {v.stats}"
     | _ => none
